@@ -7,7 +7,7 @@ import re
 
 from ..core import Checker, Rule, attr_calls, callee_is, calls_in, kwarg, resolved_calls, short
 from ..interp import Pins, find_nodes, unparse
-from .util import enclosing_loop, enclosing_stmt, every_iteration_reaches, fmt, inline_displays, is_const, parent, returns_of, single_def
+from .util import enclosing_loop, enclosing_stmt, every_iteration_reaches, fmt, inline_displays, is_const, parent, returns_of, same, single_def
 
 P = ("C20", "C01", "C06")
 DP = "dependency:DomainPredicates"
@@ -172,7 +172,7 @@ def r_next_template(ck: Checker) -> None:
     dm, df = single_def(func, gmap), single_def(func, gflat)
     wm = "{i:Variable(LOC,f'G{i}')foriinrange(0,pred.arity)ifinotinanon_pred.annotated_positions}"
     wf = "[Variable(LOC,f'G{i}')foriinrange(0,pred.arity)ifinotinanon_pred.annotated_positions]"
-    ck.add("group variables: one G<i> per non-annotated position, same in list and map", dm is not None and df is not None and unparse(dm).replace(" ", "") == wm and unparse(df).replace(" ", "") == wf, func, func.node,
+    ck.add("group variables: one G<i> per non-annotated position, same in list and map", dm is not None and df is not None and same(unparse(dm), "{i: Variable(LOC, f'G{i}') for i in range(0, pred.arity) if i not in anon_pred.annotated_positions}") and same(unparse(df), "[Variable(LOC, f'G{i}') for i in range(0, pred.arity) if i not in anon_pred.annotated_positions]"), func, func.node,
            f"var_global_map = `{unparse(dm) if dm is not None else None}`, var_global_flat = `{unparse(df) if df is not None else None}`", "all literals of one rule must agree on the group")
     X, L, Pv, N, B = (f"Variable(LOC,'{c}')" for c in "XLPNB")
     for (r, head, body), (fun, key) in zip(rules[:2], (("Min", "min"), ("Max", "max"))):
